@@ -255,7 +255,7 @@ theorem abs_getRow {t : Table} {n : Nat} (hr : t.Rect n) (i : Int) : t.getRow i 
 theorem getCol_of_col? {t : Table} {k : String} {c : List Cell} (h : t.col? k = some c) : t.getCol k = c := by
   simp [getCol, h]
 
-theorem has_iff_col? (t : Table) (k : String) : t.has k = (t.col? k).isSome := by
+theorem has_eq_isSome_col? (t : Table) (k : String) : t.has k = (t.col? k).isSome := by
   unfold Table.has col?
   rw [Option.isSome_map]
   induction t with
@@ -276,7 +276,7 @@ theorem getCol_eq_rows {t : Table} {n : Nat} (hr : t.Rect n) (hne : t ≠ []) (k
 
 theorem abs_getColE {t : Table} {n : Nat} (hr : t.Rect n) (k : String) : t.getColE k = (abs t).getCol k := by
   unfold getColE Recs.getCol
-  rw [abs_cols, contains_cols, has_iff_col?]
+  rw [abs_cols, contains_cols, has_eq_isSome_col?]
   cases hc : t.col? k with
   | none => rfl
   | some c =>
@@ -298,7 +298,7 @@ theorem mapE_getColE_ok (t : Table) (ks : List String) (h : ks.all t.cols.contai
   apply mapE_of_ok
   intro k hk
   have := List.all_eq_true.1 h k hk
-  rw [contains_cols, has_iff_col?] at this
+  rw [contains_cols, has_eq_isSome_col?] at this
   unfold getColE
   cases hc : t.col? k with
   | none => simp [hc] at this
@@ -318,7 +318,7 @@ theorem mapE_getColE_err (t : Table) (ks : List String) (h : ¬ ks.all t.cols.co
       · cases hc; rfl
     | ok c =>
       have hk : t.cols.contains k = true := by
-        rw [contains_cols, has_iff_col?]
+        rw [contains_cols, has_eq_isSome_col?]
         unfold getColE at hc
         split at hc
         · rename_i c' hc'; simp [hc']
